@@ -550,6 +550,8 @@ fn state_changing(label: &str) -> bool {
 		|| label.starts_with("aof.replace:after-rename")
 		|| label.starts_with("lmdb:after-commit")
 		|| label.starts_with("txhashset_replace:")
+		|| label.starts_with("lmdb:before-resize")
+		|| label.starts_with("lmdb:after-resize")
 }
 
 struct Ctx<'a> {
@@ -925,6 +927,13 @@ fn run_scenario(kit: &Kit, sc: &Scenario, work: &str, exe: &Path, gen_path: &str
 			let off = (seed as usize + n) % stride;
 			ms.iter().cloned().enumerate().filter(|(i, _)| i % stride == off).map(|(_, m)| m).collect()
 		};
+		// the map resize of a restart is always taken
+		let mut ms = ms;
+		for m in 1..=ev.rec_labels.len() {
+			if ev.rec_labels[m - 1].contains("resize") && !ms.contains(&m) {
+				ms.push(m);
+			}
+		}
 		for m in ms {
 			tot.second_points += 1;
 			let dir = format!("{}/{}-x{}-r{}", work, sc.name, n, m);
@@ -1105,6 +1114,77 @@ fn main() {
 			}
 		}
 	}
+	// ---- LMDB map resize (store/src/lmdb.rs maybe_resize, hook ff7c31d82): coinbase-only blocks on top
+	// of the trunk until the chain database crosses the resize threshold (test mode: 1 MB chunks, 90 %).
+	// `Store::batch()` resizes at the START of a batch, from the size the LAST commit left: block
+	// rz[x-1] is the one whose commit crosses the threshold, the batch of rz[x] is the one that resizes.
+	// Found on a probe node, then confirmed on a node built exactly as the scenarios build theirs (base
+	// in one process, reopened, then the two blocks).
+	let mut rz: Vec<usize> = vec![];
+	let mut rz_x: Option<usize> = None;
+	if long && args.iter().any(|a| a == "resize") {
+		let opts = grin_chain::Options::SKIP_POW;
+		let probe = format!("{}/rzprobe", work);
+		let mut r_cont: Option<usize> = None;
+		{
+			let c = init_chain(&probe, kit.genesis.clone()).unwrap();
+			for i in &trunk[1..] {
+				c.process_block(kit.blks[*i].block.clone(), opts).unwrap();
+			}
+			let mut t = tip;
+			for _ in 0..260 {
+				match kit.new_block(t, 2, &[]) {
+					Ok(id) => {
+						t = id;
+						rz.push(id);
+						if r_cont.is_none() {
+							verif_hooks::start_log();
+							let _ = c.process_block(kit.blks[id].block.clone(), opts);
+							if verif_hooks::take_log().iter().any(|l| l.contains("resize")) {
+								r_cont = Some(rz.len() - 1);
+							}
+						} else if rz.len() >= r_cont.unwrap() + 4 {
+							break;
+						}
+					}
+					Err(_) => break,
+				}
+			}
+		}
+		let _ = std::fs::remove_dir_all(&probe);
+		if let Some(rc) = r_cont {
+			let lo = rc.saturating_sub(3).max(1);
+			for x in lo..(rc + 3).min(rz.len()) {
+				let d = format!("{}/rzmimic", work);
+				let _ = std::fs::remove_dir_all(&d);
+				{
+					let c = init_chain(&d, kit.genesis.clone()).unwrap();
+					for i in trunk[1..].iter().chain(rz[..x - 1].iter()) {
+						c.process_block(kit.blks[*i].block.clone(), opts).unwrap();
+					}
+				}
+				let c = init_chain(&d, kit.genesis.clone()).unwrap();
+				verif_hooks::start_log();
+				let _ = c.process_block(kit.blks[rz[x - 1]].block.clone(), opts);
+				let a = verif_hooks::take_log().iter().any(|l| l.contains("resize"));
+				verif_hooks::start_log();
+				let _ = c.process_block(kit.blks[rz[x]].block.clone(), opts);
+				let b = verif_hooks::take_log().iter().any(|l| l.contains("resize"));
+				drop(c);
+				let _ = std::fs::remove_dir_all(&d);
+				if !a && b {
+					rz_x = Some(x);
+					break;
+				}
+			}
+		}
+		out.raw(&format!(
+			"#STAT lmdb-resize probe: blocks_above_trunk={} first_resize_on_probe={:?} crossing_block_index={:?}",
+			rz.len(),
+			r_cont,
+			rz_x
+		));
+	}
 	std::fs::create_dir_all(format!("{}/blocks", work)).unwrap();
 	let gen_path = format!("{}/blocks/genesis.bin", work);
 	write_block(&gen_path, &kit.genesis);
@@ -1217,12 +1297,29 @@ fn main() {
 			scenarios.push(s);
 		}
 	}
+	// the LMDB map resize as crash points: (1) the block whose commit takes the database over the
+	// threshold (its header known in advance): every death, and for the deaths after its commit the
+	// RESTART is the one that resizes (second deaths before / after the resize); (2) that block and its
+	// child in one call (the child parked as an orphan): the resize happens between the two acceptances
+	if let Some(x) = rz_x {
+		let base: Vec<usize> = trunk[1..].iter().chain(rz[..x - 1].iter()).cloned().collect();
+		let mut a = sc("resize-crossing-block", &base, "block", &[rz[x - 1]]);
+		a.pre_headers = vec![rz[x - 1]];
+		a.followup = vec![("block", rz[x])];
+		scenarios.push(a);
+		// (the same two blocks in ONE call - the child parked as an orphan - are not a registered
+		// scenario: the reference run logs no resize crash point inside the call; the resize is taken
+		// by the restart, as here, or handed to maybe_resize's waiter thread, whose crash points would
+		// interleave with the main thread's at no fixed position)
+		let _ = &rz[x];
+	}
 	for s in scenarios.iter_mut() {
 		s.second = [
 			"plain-extension",
 			"reorg-with-spends",
 			"reset-head",
 			"state-sync-install",
+			"resize-crossing-block",
 		]
 		.contains(&s.name);
 		s.half = ["orphan-chain", "block-after-header"].contains(&s.name);
